@@ -587,6 +587,14 @@ def examine(case, path, pq=None, ctx=None):
     mset = None if not mc else sorted(x.decode() for x in mc[0])
     ctx.correspondence("check_categories ~ ParquetFile.check_categories", {**ccase, "categ": categ}, mset, None if final_cats is None else sorted(final_cats))
     ctx.correspondence("count ~ ParquetFile.count()", ccase, pq.call("count", rg_rows), cnt)
+    if pnames is not None:
+        try:
+            meta_names = [str(x) for x in pf.partition_meta]
+        except Exception:        # noqa
+            meta_names = []
+        mpn = pq.call("partition_names", [c.encode() for c in pcats], len(pf.row_groups), [m.encode() for m in meta_names])
+        ctx.correspondence("PartNames.partition_names ~ ParquetFile.partition_names", {**ccase, "cats": list(pcats), "meta": meta_names},
+                           [bytes(x).decode() for x in (mpn or [])], [str(x) for x in pnames])
     stored_ix = []
     for ic in (pf.pandas_metadata.get("index_columns", []) if has_md else []):
         if isinstance(ic, str):
@@ -823,7 +831,7 @@ def run(ctx):
     ctx.extra["foreign_files"] = len(foreign)
     sources = []
     cdir = os.path.join(C.VERIF, "corpus", "C17")
-    corpus = [json.load(open(os.path.join(cdir, f))) for f in sorted(os.listdir(cdir)) if f.endswith(".json") and not f.startswith("hp_")] if os.path.isdir(cdir) else []
+    corpus = [json.load(open(os.path.join(cdir, f))) for f in sorted(os.listdir(cdir)) if f.endswith(".json") and not f.startswith(("hp_", "ev_"))] if os.path.isdir(cdir) else []
     ctx.extra["corpus_cases"] = len(corpus)
     for rel in foreign:
         sources.append({"source": "foreign", "rel": rel})
@@ -1170,7 +1178,9 @@ def evolve_job(case):
 
 
 def evolve_stream(ctx, n):
-    cases = [gen_evolve(ctx.rng) for _ in range(n)]
+    cdir = os.path.join(C.VERIF, "corpus", "C17")
+    cases = [json.load(open(os.path.join(cdir, f))) for f in sorted(os.listdir(cdir)) if f.startswith("ev_") and f.endswith(".json")] if os.path.isdir(cdir) else []
+    cases += [gen_evolve(ctx.rng) for _ in range(n)]
     for k in (2, 3, 4):                 # every family in the first / the last file only, deterministically
         for kind in EVOLVE_KINDS:
             for present in ([0], [k - 1]):
